@@ -27,6 +27,7 @@ func runC03(ctx *core.Ctx) {
 	totality(ctx, []*ssa.Function{parse, parseFile}, totalOpts{rule: "TOT"})
 
 	searchRules(ctx, parse)
+	inputReadOnly(ctx, "RO", []*ssa.Function{parse, parseFile})
 	ctx.Rule("FWD", "Format is the reference implementation: the package's Format does nothing but call golang.org/x/tools/txtar.Format on its argument and return the result", 1)
 	if fm := ctx.Need("FWD", "txtar", "Format"); fm != nil {
 		g := graph(ctx.P, fm)
@@ -242,6 +243,22 @@ func searchRules(ctx *core.Ctx, parse *ssa.Function) {
 		facts := g.FactsAtInstr(r)
 		ok := cmpFact(facts, token.LSS, isCallOf([]string{"bytes.Index", "strings.Index", "bytes.IndexByte"}), isConstIntV(0))
 		ctx.Check(ok, "EXIT", shortFn(search)+"#no-marker-return"+itoa(k+1), r.Pos(), "the search reports 'no further marker' only when bytes.Index returned < 0 (a weaker test such as <= 0 abandons the search while a marker line is still ahead)")
+		// ... and then hands back everything it was given: the data result is the parameter itself,
+		// or a call (the newline fix) on the parameter itself - not on a part of it
+		rv := ssax.ReturnValues(r)
+		whole := false
+		for _, v := range rv {
+			if !isByteSlice(v.Type()) || ssax.IsNil(v) {
+				continue
+			}
+			if v == ssa.Value(search.Params[0]) {
+				whole = true
+			}
+			if c, isC := v.(*ssa.Call); isC && len(c.Call.Args) >= 1 && c.Call.Args[0] == ssa.Value(search.Params[0]) {
+				whole = true
+			}
+		}
+		ctx.Check(whole, "EXIT", shortFn(search)+"#no-marker-return"+itoa(k+1)+":whole", r.Pos(), "with no marker ahead the search returns all of its input as the data before it (a sub-slice that starts at the last candidate drops the text before that candidate)")
 	}
 	if len(notFound) == 0 {
 		ctx.Bad("EXIT", shortFn(search)+"#no-marker-return", search.Pos(), "the search has no 'no further marker' return")
@@ -282,4 +299,48 @@ func searchRules(ctx *core.Ctx, parse *ssa.Function) {
 		return out
 	}
 	ctx.Check(ok, "DISC", "txtar.Parse#loop-condition", parse.Pos(), "Parse's loop tests %v; the search reports a hit through %v (other components can be empty although a marker was found, e.g. 'after' for a marker on the last line without newline)", nm(used), nm(disc))
+}
+
+// inputReadOnly: the functions reachable from the entries never write through a
+// byte-slice parameter: no append onto it (which writes into spare capacity of
+// the caller's buffer), no copy into it, no element store. The parser's results
+// alias its input, so a write changes what the caller - or a neighbouring parse
+// of the same buffer - sees.
+func inputReadOnly(ctx *core.Ctx, rule string, entries []*ssa.Function) {
+	p := ctx.P
+	ctx.Rule(rule, "input is read-only: in every module function reachable from the entry points no byte-slice parameter (or re-slice of one) is the first argument of append, the destination of copy, or the base of an element store", 1)
+	n, bad := 0, 0
+	for _, f := range reachableMod(p, entries, nil) {
+		g := graph(p, f)
+		ctx.Seen(f)
+		isParamSlice := func(v ssa.Value) bool {
+			return isByteSlice(v.Type()) && ssax.DerivedFrom(v, func(x ssa.Value) bool {
+				_, ok := x.(*ssa.Parameter)
+				return ok && isByteSlice(x.Type())
+			}, nil)
+		}
+		g.Instrs(func(i ssa.Instruction) {
+			switch x := i.(type) {
+			case *ssa.Call:
+				if (isBuiltinCall(x, "append") || isBuiltinCall(x, "copy")) && len(x.Call.Args) > 0 && isByteSlice(x.Call.Args[0].Type()) {
+					n++
+					if isParamSlice(x.Call.Args[0]) {
+						bad++
+						ctx.Bad(rule, shortFn(f)+"#write"+itoa(bad), x.Pos(), "%s onto a parameter: when the caller's slice has spare capacity this writes into the caller's buffer past the input", x.Call.Value.Name())
+					}
+				}
+			case *ssa.Store:
+				if ia, ok := x.Addr.(*ssa.IndexAddr); ok && isByteSlice(ia.X.Type()) {
+					n++
+					if isParamSlice(ia.X) {
+						bad++
+						ctx.Bad(rule, shortFn(f)+"#write"+itoa(bad), x.Pos(), "element store into a parameter slice")
+					}
+				}
+			}
+		})
+	}
+	if bad == 0 {
+		ctx.OK(rule, "txtar#input-read-only", token.NoPos, "%d append/copy/element-store sites examined, none writes through a parameter", n)
+	}
 }
